@@ -60,10 +60,15 @@ def run(sid):
         print(sid, "patch does not apply:", o[-200:])
         return
     t0 = time.time()
+    evp = os.path.join(V, "evidence", prop + ".json")
+    saved = open(evp).read() if os.path.exists(evp) else None
     try:
         rc, o = sh(f"python3-vt -m pyvc.check {prop} --tier quick", cwd=V, timeout=3000)
     finally:
         sh("git checkout -- .", cwd="/repo")
+        # the evidence file describes /repo as committed: a run against a seeded change must not leave its record behind
+        if saved is not None:
+            open(evp, "w").write(saved)
     lines = [l for l in o.splitlines() if l.startswith(("VIOLATION", "KNOWN", "UNDECIDED", "CHECKER", prop))]
     res = dict(exit=rc, seconds=round(time.time() - t0), lines=[l[:400] for l in lines[:8]])
     meta["check_result"] = res
